@@ -35,6 +35,10 @@ def recipes(labels, tier):
          {"k": "comb", "a": 3.0, "b": 2.0, "de": 0.5}, {"k": "abs", "de": 1.0}]
     if tier == "quick":
         D = [D[1], D[2], D[3]]
+    # one weight is 0 and the other is not 1: the remaining term keeps its weight
+    D += [{"k": "comb", "a": 0.0, "b": 2.0, "de": 0.5}]
+    if tier != "quick":
+        D += [{"k": "comb", "a": 3.0, "b": 0.0, "de": 1.0}]
     names = sorted(l for l in labels if l is not None)
     if None not in labels and names:
         D.append({"k": "comb", "a": 1.0, "b": 1.0, "de": 2.0, "cat": {"k": "ord", "labels": ["x", "y"]}})
